@@ -9,10 +9,13 @@ package main
 // shows up as a wrong result in some goroutine or as a race report.
 
 import (
+	"bufio"
 	"bytes"
 	"fmt"
+	"io"
 	"iter"
 	"math/rand/v2"
+	"strings"
 	"sync"
 
 	"github.com/fluhus/biostuff/align"
@@ -86,8 +89,8 @@ func codecParallel(formats ...string) func(c *Ctx) {
 				c.Case(idx, func(k *K) {
 					k.Input("format", format)
 					r := k.Rand()
-					codecWear(k, r, cd, gen)
-					if !codecLockstep(k, r, cd, gen, format) {
+					kept := codecWear(k, r, cd, gen)
+					if !codecLockstep(k, r, cd, gen, format, kept...) {
 						return
 					}
 					// parallel
@@ -143,8 +146,8 @@ func codecHistories(formats ...string) func(c *Ctx) {
 					k.Input("format", format)
 					r := k.Rand()
 					for round := 0; round < 4; round++ {
-						codecWear(k, r, cd, gen)
-						if !codecLockstep(k, r, cd, gen, format) || !codecNested(k, r, cd, gen, format) {
+						kept := codecWear(k, r, cd, gen)
+						if !codecLockstep(k, r, cd, gen, format, kept...) || !codecNested(k, r, cd, gen, format) {
 							return
 						}
 					}
@@ -158,8 +161,25 @@ func codecHistories(formats ...string) func(c *Ctx) {
 }
 
 // codecWear: iterations that end in every unusual way.
-func codecWear(k *K, r *rand.Rand, cd *codec, gen string) {
+//
+// It also leaves behind what a caller may legitimately still hold: its OWN
+// *bufio.Reader objects (of several sizes) that it handed to the decoder as the
+// io.Reader of an iteration that has ended (completely, or stopped early). They
+// are the caller's; it goes on using them (codecLockstep resets one onto its
+// next input).
+func codecWear(k *K, r *rand.Rand, cd *codec, gen string) (kept []*bufio.Reader) {
 	for w := 0; w < 6; w++ {
+		{
+			own := bufio.NewReaderSize(bytes.NewReader(plainWellFormed(r, gen)), pick(r, []int{16, 4096, 4096, 8192, 65536}))
+			catch(func() {
+				for range cd.seq(own) {
+					if w%2 == 0 {
+						break
+					}
+				}
+			})
+			kept = append(kept, own)
+		}
 		x := nearValid(r, gen)
 		catch(func() { collect(cd.seq(bytes.NewReader(x)), len(x)+8) })
 		catch(func() {
@@ -178,7 +198,8 @@ func codecWear(k *K, r *rand.Rand, cd *codec, gen string) {
 		})
 		catch(func() { collect(cd.file("/nonexistent/dir/x"+cd.ext), 4) })
 	}
-	k.Count("wear_iterations", 6*5)
+	k.Count("wear_iterations", 6*6)
+	return kept
 }
 
 func wellFormedAtLeast(r *rand.Rand, gen string, n int) []byte {
@@ -190,7 +211,7 @@ func wellFormedAtLeast(r *rand.Rand, gen string, n int) []byte {
 }
 
 // codecLockstep: three readers over different texts, open at once, advanced in turn.
-func codecLockstep(k *K, r *rand.Rand, cd *codec, gen, format string) bool {
+func codecLockstep(k *K, r *rand.Rand, cd *codec, gen, format string, kept ...*bufio.Reader) bool {
 	type stream struct {
 		want []item
 		next func() (string, error, bool)
@@ -201,7 +222,21 @@ func codecLockstep(k *K, r *rand.Rand, cd *codec, gen, format string) bool {
 	for s := 0; s < 3; s++ {
 		x := wellFormedAtLeast(r, gen, 300)
 		want, _ := collect(cd.seq(bytes.NewReader(x)), len(x)+8)
-		next, stop := iter.Pull2(cd.seq(bytes.NewReader(x)))
+		// the inputs arrive through io.Readers of different dynamic types; the first one through a *bufio.Reader
+		// the caller already used for an earlier, finished iteration and has now reset onto this input
+		var src io.Reader = bytes.NewReader(x)
+		switch {
+		case s == 0 && len(kept) > 0:
+			own := kept[r.IntN(len(kept))]
+			own.Reset(bytes.NewReader(x))
+			src = own
+			k.Count("lockstep_streams_through_a_reused_bufio_reader", 1)
+		case s == 1:
+			src = strings.NewReader(string(x))
+		case s == 2 && r.IntN(2) == 0:
+			src = io.MultiReader(bytes.NewReader(x[:len(x)/2]), bufio.NewReaderSize(bytes.NewReader(x[len(x)/2:]), 4096))
+		}
+		next, stop := iter.Pull2(cd.seq(src))
 		streams = append(streams, &stream{want: want, next: next, stop: stop})
 	}
 	for live := len(streams); live > 0; {
